@@ -766,6 +766,38 @@ fn check_literals(cx: &mut Ctx, t: &mut Tally) {
             lit(cx, t, &body, char::from_u32(cp).map(|c| c.to_string()));
         }
     }
+    // line continuation: a backslash at the end of a line continues the string on the next line,
+    // skipping that line's leading whitespace (and nothing else: a following blank line stays)
+    {
+        let alpha = [" ", "\t", "\n", "c", "\\\n"];
+        let mut tails: Vec<String> = vec![String::new()];
+        let mut layer = vec![String::new()];
+        for _ in 0..4 {
+            let mut next = vec![];
+            for p in &layer {
+                for a in alpha {
+                    next.push(format!("{p}{a}"));
+                }
+            }
+            tails.extend(next.iter().cloned());
+            layer = next;
+        }
+        fn expected(text: &str) -> String {
+            // text starts directly after a continuation's line break
+            let rest = text.trim_start_matches(|c: char| c.is_whitespace() && c != '\n');
+            match rest.find("\\\n") {
+                Some(i) => format!("{}{}", &rest[..i], expected(&rest[i + 2..])),
+                None => rest.to_string(),
+            }
+        }
+        for tail in &tails {
+            let body = format!("ab\\\n{tail}d");
+            let want = format!("ab{}d", expected(tail));
+            lit(cx, t, &body, Some(want));
+        }
+        // the continuation itself with a Windows line ending
+        lit(cx, t, "ab\\\r\n   cd", Some("abcd".to_string()));
+    }
     // not scalar values / malformed escapes: never malformed text
     for body in ["\\u{d800}", "\\u{dfff}", "\\u{110000}", "\\u{ffffff}", "\\u{1234567}", "\\u{}", "\\u{g}", "\\x4", "\\xg1", "\\u41"] {
         lit(cx, t, body, None);
